@@ -110,9 +110,21 @@ def _compare_phase_with_static(tab_ph, ph, static_df, sig):
         if p != ph:
             continue
         rs = ts.by[("", name)]
+        # two independently converged solutions: 3e-5 relative; Loss is a difference of nearly
+        # equal voltages times a current, so its tolerance (and the efficiency's) is relative
+        # to the power flowing through the row, not to the loss itself
+        pw = max(abs(r["Power (W)"]), abs(rs["Power (W)"]),
+                 abs(r["Vin (V)"] * r["Iin (A)"]))
         for c in ("Vin (V)", "Vout (V)", "Iin (A)", "Iout (A)", "Power (W)", "Loss (W)",
                   "Efficiency (%)", "Warnings"):
-            if not cell_eq(r[c], rs[c], rel=3e-5, abs_=1e-7):
+            extra = 0.0
+            if c == "Loss (W)":
+                extra = 3e-5 * pw
+            elif c == "Efficiency (%)":
+                extra = 100.0 * 3e-5 * pw / max(pw, 1e-300) if pw > 0 else 0.0
+                if pw > 0 and isinstance(r[c], float) and isinstance(rs[c], float):
+                    extra = max(extra, 100.0 * (3e-5 * pw + 1e-7) / pw)
+            if not cell_eq(r[c], rs[c], rel=3e-5, abs_=1e-7 + extra):
                 raise Fail(sig, "phase {!r}, {!r}: {} = {!r} but the phase-less system gives "
                            "{!r}".format(ph, name, c, r[c], rs[c]))
 
@@ -240,7 +252,7 @@ def streams(tier, avoid):
     return [
         Stream("rows", body_rows, strategy=G.systems(o), n={"quick": 600, "thorough": 5000},
                reduce=S.reductions),
-        Stream("meta", body_meta, strategy=meta, n={"quick": 300, "thorough": 2500},
+        Stream("meta", body_meta, strategy=meta, n={"quick": 200, "thorough": 2000},
                reduce=_reduce_case),
         Stream("rail_addressed", body_rail, strategy=rail, n={"quick": 200, "thorough": 1500},
                reduce=_reduce_case),
